@@ -238,7 +238,7 @@ def run_op(slot, op, root):
 
     def arr(a):
         a = np.asarray(a, dtype=float)
-        inputs.append((a, a.copy()))
+        inputs.append((a, (a.copy(), a.shape, a.strides, a.dtype)))
         return a
 
     al = op.get("as_list", False)
@@ -250,7 +250,8 @@ def run_op(slot, op, root):
         x = arr(pts)
         return np.asarray(m.pdf(_maybe_list(x, al))), inputs
     if name == "cdf":
-        x = arr(_points(slot, rng, 1))
+        pt = _points(slot, rng, 1)
+        x = arr(pt[0].copy() if rng.random() < 0.5 else pt)  # a single point as a 1-D array or as (1, n_dim)
         return np.asarray(m.cdf(_maybe_list(x, al))), inputs
     if name == "dist_pdf":
         pts = _points(slot, rng, 5)[:, 0].copy()
@@ -284,7 +285,7 @@ def run_op(slot, op, root):
     if name == "draw_int":
         if slot.spec.get("transformed"):
             return np.asarray(m.draw_sample(200)), inputs
-        return np.asarray(m.draw_sample(300, random_state=int(op["aseed"] % 100000))), inputs
+        return np.asarray(m.draw_sample(300, random_state=0 if op["aseed"] % 4 == 0 else int(op["aseed"] % 100000))), inputs
     if name == "draw_gen":
         return np.asarray(m.draw_sample(300, random_state=np.random.default_rng(op["aseed"]))), inputs
     if name in ("iform", "isorm"):
@@ -365,7 +366,8 @@ def run_op(slot, op, root):
         c = v.IFORMContour(m, 0.2, n_points=4)
         return np.asarray(c.coordinates, dtype=float), inputs
     if name == "t_empirical":
-        x = arr(_points(slot, rng, 2))
+        pts = _points(slot, rng, 2)
+        x = arr(pts[0].copy() if rng.random() < 0.5 else pts)
         return np.asarray(m.empirical_cdf(x)), inputs
     if name == "t_cond_sample":
         return np.asarray(m.conditional_sample(2000, 1, [float(_points(slot, rng, 1)[0, 0])], random_state=int(op["aseed"] % 1000))), inputs
@@ -479,8 +481,11 @@ def execute_universe(scen, only_slot=None, run=None):
             results = []
             exc = None
             reps = 2 if checking else 1
+            seeded = op["op"] in ("draw_gen", "t_cond_sample") or (op["op"] == "draw_int" and (not slot.spec.get("transformed") or slot.spec.get("random_state") is not None))
             for rep in range(reps):
-                seams.pin_global(pin)
+                # an operation that was given a seed must not depend on the global RNG at all:
+                # its second execution runs under another global state
+                seams.pin_global(pin if (rep == 0 or not seeded) else pin + 7919)
                 try:
                     res, inputs = run_op(slot, op, root)
                     results.append(core.digest(res))
@@ -491,9 +496,10 @@ def execute_universe(scen, only_slot=None, run=None):
                 finally:
                     plt.close("all")
                 if checking and rep == 0:
-                    for a, a0 in inputs:
-                        if a.tobytes() != a0.tobytes():
-                            run.violate("I1-caller-array-modified", f"{op['op']}", {"slot": s, "kind": slot.spec["kind"], "step": k})
+                    for a, (a0, shp, strd, dt) in inputs:
+                        if a.shape != shp or a.strides != strd or a.dtype != dt or a.tobytes() != a0.tobytes():
+                            what = "shape" if a.shape != shp else ("layout" if a.strides != strd or a.dtype != dt else "values")
+                            run.violate("I1-caller-array-modified", f"{op['op']}/{what}", {"slot": s, "kind": slot.spec["kind"], "shape_before": list(shp), "shape_after": list(a.shape), "step": k})
                             return digests
             digests[k] = results[0]
             if checking:
